@@ -16,4 +16,5 @@ pub mod c12;
 pub mod c17;
 pub mod rx;
 pub mod life;
+pub mod sasl;
 pub mod sweeps;
